@@ -86,10 +86,13 @@ func (e plainErr) Error() string { return e.s }
 func mkRej(f []string) error { // code, reasonhex, hdrhex
 	code, _ := strconv.Atoi(f[0])
 	reason := string(unhx(f[1]))
-	if code == 0 {
+	if code == 0 && f[0] != "r0" {
 		return plainErr{reason}
 	}
-	opts := []ws.RejectOption{ws.RejectionStatus(code), ws.RejectionReason(reason)}
+	opts := []ws.RejectOption{ws.RejectionReason(reason)}
+	if f[0] != "r0" { // "r0": a rejection that chooses no status
+		opts = append(opts, ws.RejectionStatus(code))
+	}
 	if f[2] != "-" {
 		opts = append(opts, ws.RejectionHeader(ws.HandshakeHeaderString(unhx(f[2]))))
 	}
@@ -366,13 +369,24 @@ func genC09(tier string, r *rng) {
 			emitUp(ec, buildReq("GET", "/", "HTTP/1.1", append(append([]hdr{}, base...), hdr{"Sec-WebSocket-Extensions", ev}), "\r\n"))
 		}
 		emitUp(ec, buildReq("GET", "/", "HTTP/1.1", append(append([]hdr{}, base...), hdr{"Sec-WebSocket-Extensions", " x"}, hdr{"Sec-WebSocket-Extensions", " permessage-deflate"}), "\r\n"))
+		// several Sec-WebSocket-Extensions lines: an objectionable or malformed one first, in the middle, last
+		for _, ev := range extVals {
+			good := hdr{"Sec-WebSocket-Extensions", " permessage-deflate"}
+			other := hdr{"Sec-WebSocket-Extensions", " x-foo"}
+			bad := hdr{"Sec-WebSocket-Extensions", ev}
+			for _, three := range [][]hdr{{bad, good}, {good, bad}, {other, bad, good}, {bad, other, other}} {
+				emitUp(ec, buildReq("GET", "/", "HTTP/1.1", append(append([]hdr{}, base...), three...), "\r\n"))
+			}
+		}
 	}
 	// callbacks: every combination of accept / reject (custom status, headers; plain error)
 	rej1 := "403:" + hx([]byte("forbidden by test")) + ":" + hx([]byte("X-Why: because\r\n"))
 	rej2 := "0:" + hx([]byte("plain failure")) + ":-"
 	rej3 := "401:" + hx([]byte("")) + ":-"
 	hdrCfg := "hdr:" + hx([]byte("X-Server: t\r\n"))
-	cbs := []string{"onreq:" + rej1, "onhost:" + rej2, "onhdr:" + hx([]byte("X-A")) + ":" + rej3, "before:r:" + rej1, "before:h:" + hx([]byte("Set-Cookie: a=b\r\n")), hdrCfg}
+	rej4 := "r0:" + hx([]byte("no status chosen")) + ":" + hx([]byte("X-Why: unsaid\r\n"))
+	rej5 := "r0:" + hx([]byte("")) + ":-"
+	cbs := []string{"onreq:" + rej4, "before:r:" + rej5, "onhost:" + rej4, "onhdr:" + hx([]byte("X-A")) + ":" + rej4, "onreq:" + rej1, "onhost:" + rej2, "onhdr:" + hx([]byte("X-A")) + ":" + rej3, "before:r:" + rej1, "before:h:" + hx([]byte("Set-Cookie: a=b\r\n")), hdrCfg}
 	for mask := 0; mask < 1<<uint(len(cbs)); mask++ {
 		if tier == "quick" && mask%3 != 0 && mask > 8 {
 			continue
